@@ -315,6 +315,91 @@ done:
                 return 2;
             }
             free(m);
+        } else if (!strcmp(comp, "strchain") && (c.nf >= 3) && (c.nf >= 3 + 2 * atoi(c.f[1]))) {
+            /* strchain <n> (<hex length | ~> <number of patterns>)*n <nv> <decimal length>*nv : a chain of string typedefs,
+             * level i with the patterns ".{0,<100 + 10 i + j>}" (they match every probe) -> E | <length parts> <numbers of the
+             * compiled patterns of the leaf type in order, - when none> <one 0/1 per probe string of that many characters> */
+            int n = atoi(c.f[1]), nv = atoi(c.f[2 + 2 * n]);
+            char *m = NULL, tmp[160];
+            size_t mn = 0, mcap = 0;
+            struct lys_module *mod = NULL;
+
+            add_str(&m, &mn, &mcap, "module r {namespace urn:r; prefix r; yang-version 1.1;\n");
+            for (int i = 1; i <= n; i++) {
+                const char *h = c.f[2 * i];
+                int np = atoi(c.f[2 * i + 1]);
+
+                if (i == 1) {
+                    snprintf(tmp, sizeof tmp, " typedef t1 {type string");
+                } else {
+                    snprintf(tmp, sizeof tmp, " typedef t%d {type t%d", i, i - 1);
+                }
+                add_str(&m, &mn, &mcap, tmp);
+                if (strcmp(h, "~") || np) {
+                    add_str(&m, &mn, &mcap, " {");
+                    if (strcmp(h, "~")) {
+                        char *r = vunhex(h, NULL);
+
+                        add_str(&m, &mn, &mcap, "length \"");
+                        add_quoted(&m, &mn, &mcap, r);
+                        add_str(&m, &mn, &mcap, "\";");
+                        free(r);
+                    }
+                    for (int j = 0; j < np; j++) {
+                        snprintf(tmp, sizeof tmp, " pattern \".{0,%d}\";", 100 + 10 * i + j);
+                        add_str(&m, &mn, &mcap, tmp);
+                    }
+                    add_str(&m, &mn, &mcap, "}}\n");
+                } else {
+                    add_str(&m, &mn, &mcap, ";}\n");
+                }
+            }
+            snprintf(tmp, sizeof tmp, " leaf l {type t%d;}\n}\n", n);
+            add_str(&m, &mn, &mcap, tmp);
+            if (getenv("LYX_DEBUG")) {
+                fprintf(stderr, "%s", m);
+            }
+            if (lys_parse_mem(ctx, m, LYS_IN_YANG, &mod) || !mod || !mod->compiled) {
+                printf("E");
+            } else {
+                const struct lysc_node *leaf = lys_find_child(NULL, mod, "l", 0, LYS_LEAF, 0);
+                const struct lysc_type_str *t = leaf ? (const struct lysc_type_str *)((const struct lysc_node_leaf *)leaf)->type : NULL;
+
+                if (!t || (t->basetype != LY_TYPE_STRING)) {
+                    printf("?type");
+                } else {
+                    LY_ARRAY_COUNT_TYPE u;
+
+                    put_parts(t->length, 1);
+                    printf(" ");
+                    if (!LY_ARRAY_COUNT(t->patterns)) {
+                        printf("-");
+                    }
+                    LY_ARRAY_FOR(t->patterns, u) {
+                        const char *e = t->patterns[u]->expr, *cm = e ? strchr(e, ',') : NULL;
+
+                        printf("%s%d", u ? "," : "", cm ? atoi(cm + 1) : -1);
+                    }
+                    printf(" ");
+                    for (int i = 0; i < nv; i++) {
+                        size_t k = strtoul(c.f[3 + 2 * n + i], NULL, 10);
+                        char *probe = malloc(k + 1);
+
+                        memset(probe, 'a', k);
+                        probe[k] = 0;
+                        printf("%c", lyd_value_validate(ctx, leaf, probe, k, NULL, NULL, NULL) ? '0' : '1');
+                        free(probe);
+                    }
+                }
+            }
+            ly_err_clean(ctx, NULL);
+            ly_ctx_destroy(ctx);
+            ctx = NULL;
+            if (ly_ctx_new(NULL, 0, &ctx)) {
+                fprintf(stderr, "ctx\n");
+                return 2;
+            }
+            free(m);
         } else {
             printf("?");
         }
